@@ -12,12 +12,15 @@ FUNCS = {'ADD': ['qvector_addat', 'qvector_addfirst', 'qvector_addlast', 'qvecto
 
 def vec_cases(tier, prefix='c10', extra_defs=None, checks='func', leak=False, ops=None, safety_owner='C11', sizes=None, maxes=None, timeout=600):
     out = []
-    sizes = sizes or ([1, 3] if tier == 'quick' else [1, 2, 3, 4, 7, 8, 16, 64])
+    # 33: one byte above a 32-byte staging chunk (element-wise swaps/copies through fixed-size buffers), not a power of two
+    sizes = sizes or ([1, 3, 33] if tier == 'quick' else [1, 2, 3, 4, 7, 8, 16, 33, 40, 64])
     maxes = maxes if maxes is not None else ([0, 1, 2, 3] if tier == 'quick' else [0, 1, 2, 3, 4, 5])
     for op in (ops or [o for o in OPS if o != 'GROW2']):
         for osz in sizes:
             ms = [0] if op == 'CTOR' else maxes
-            if osz > 8 and op not in ('ADD', 'POP', 'REMOVE', 'RESIZE', 'GET'):
+            if osz > 8 and op not in ('ADD', 'POP', 'REMOVE', 'RESIZE', 'GET', 'REVERSE', 'SET'):
+                continue
+            if osz in (33, 40) and op in ('RESIZE', 'ADD', 'GROW2'):   # growth with 33-byte elements: out of memory at 8 GB
                 continue
             for mx in ms:
                 if osz > 8 and mx > 3:
